@@ -874,7 +874,7 @@ func (f *bfFlow) dispatchArms() []dispatchArm {
 
 func ruleR11_1(w *World, r *Report) {
 	const id = "R11.1"
-	r.Rule(id, "every type implementing bf.Formula is handled wherever formulas are dispatched on: no dynamic type that can flow into a type switch ending in panic (or into a plain type assertion) is missing from its cases; the range of the normal-form methods is computed by a type-flow analysis", 12)
+	r.Rule(id, "every type implementing bf.Formula is handled wherever formulas are dispatched on: no dynamic type that can flow into a type switch ending in panic (or into a plain type assertion) is missing from its cases; the range of the normal-form methods is computed by a type-flow analysis", 10)
 	m, f := bfOf(w)
 	if m.err != "" {
 		r.Unk(id, "bf.Formula", "-", m.err)
